@@ -329,6 +329,29 @@ def o_det(R, rng, g):
                         f"fast_det with rows 0,1 exchanged = {float(got2)!r}, expected {fl(-ex)!r}")
 
 
+def o_det_int(R, rng, g):
+    """the determinant shortcut on integer-typed matrices (python ints, numpy integer arrays, integer vertex coordinates) with
+    large entries: the products must not wrap around in an integer dtype"""
+    T, L1, LN, L2 = mods()
+    n = rng.choice([2, 2, 3, 3, 4])
+    mag = rng.choice([3, 20, 33, 40])
+    for _ in range(30):
+        M = [[rng.randrange(-(1 << mag), 1 << mag) for _ in range(n)] for _ in range(n)]
+        P = [[Fr(x) for x in row] for row in M]
+        if well_conditioned([[x / Fr(1 << mag) for x in row] for row in P] + [[Fr(0)] * n], 1e-3):
+            break
+    else:
+        return
+    ex = fdet(P)
+    kind = rng.choice(["python ints", "numpy int64"])
+    arg = M if kind == "python ints" else np.array(M, dtype=np.int64)
+    R.tag(f"fast_det n={n} integer entries ~2^{mag} ({kind})")
+    ok, got = R.call("triangulation.fast_det", T.fast_det, arg)
+    if ok:
+        R.check("triangulation.fast_det", "fast_det_integer_input", close(got, ex),
+                f"fast_det({kind} {M}) = {float(got)!r}, exact determinant {fl(ex)!r}")
+
+
 def o_norm(R, rng, g):
     T, *_ = mods()
     n = rng.choice([1, 2, 2, 3, 3, 4, 5])
@@ -841,7 +864,7 @@ def o_quadrature(R, rng, g):
 
 
 ORACLES = {
-    "det": (o_det, 3), "norm": (o_norm, 1), "circumsphere": (o_circumsphere, 3), "point_in_simplex": (o_point_in_simplex, 3),
+    "det": (o_det, 3), "det_int": (o_det_int, 1), "norm": (o_norm, 1), "circumsphere": (o_circumsphere, 3), "point_in_simplex": (o_point_in_simplex, 3),
     "orientation": (o_orientation, 2), "volume_embedding": (o_volume_embedding, 3), "nd_volume": (o_nd_volume, 2),
     "nd_losses": (o_nd_losses, 2), "choose_point": (o_choose_point, 1), "l1d": (o_l1d, 3), "linspace": (o_linspace, 1),
     "l2d": (o_l2d, 1), "quadrature": (o_quadrature, 1),
